@@ -515,3 +515,52 @@ def register(reg):      # noqa: F811
     L('prop.C07.rel1', direct=_c07_rel1, doc='heights above the limit are irrelevant: the output row does not mention them')
     L('prop.C07.rel2', direct=_c07_rel2, doc='a hit above the limit behaves like the non-detection / removal that replaces it')
     L('prop.C07.below_intact', direct=_c07_below_intact, doc='hits at or below the limit (and non-detections) are kept unchanged')
+
+
+# ---------------------------------------------------------------------------------------------
+# C19: order preservation, inverse and range of the scalings, as lemmas over the element-wise postconditions
+# ---------------------------------------------------------------------------------------------
+
+def _c19_sas_order():
+    a, b, sh, sc = z3.Reals('a b sh sc')
+    return [sc > 0, a < b], (a - sh) / sc < (b - sh) / sc
+
+
+def _c19_sas_inverse():
+    a, sh, sc = z3.Reals('a sh sc')
+    return [sc > 0], ((a - sh) / sc) * sc + sh == a
+
+
+def _c19_mm_range():
+    a, lo, hi = z3.Reals('a lo hi')
+    return [hi > lo, lo <= a, a <= hi], z3.And((a - lo) / (hi - lo) >= 0, (a - lo) / (hi - lo) <= 1)
+
+
+def _c19_mm_order():
+    a, b, lo, hi = z3.Reals('a b lo hi')
+    return [hi > lo, a < b], (a - lo) / (hi - lo) < (b - lo) / (hi - lo)
+
+
+def _c19_mm_inverse():
+    a, lo, hi = z3.Reals('a lo hi')
+    return [hi > lo], ((a - lo) / (hi - lo)) * (hi - lo) + lo == a
+
+
+def _c19_mm_with_minrange():
+    """min-max scaling with the interval of minrange2minmax (contains the data, width >= min_range > 0): into [0, 1]"""
+    a, lo, hi, mr = z3.Reals('a lo hi mr')
+    return [lo <= a, a <= hi, hi - lo >= mr, mr > 0], z3.And((a - lo) / (hi - lo) >= 0, (a - lo) / (hi - lo) <= 1)
+
+
+_register_9 = register
+
+
+def register(reg):      # noqa: F811
+    _register_9(reg)
+    L = lambda *a, **k: reg.add_lemma(Lemma(*a, properties=('C19',), **k))
+    L('prop.C19.sas.order', direct=_c19_sas_order, doc='shift-and-scale with scale > 0 is strictly order-preserving')
+    L('prop.C19.sas.inverse', direct=_c19_sas_inverse, doc='undo(do(x)) = x for shift-and-scale (exact in the reals)')
+    L('prop.C19.mm.range', direct=_c19_mm_range, doc='min-max scaling maps [lo, hi] into [0, 1]')
+    L('prop.C19.mm.order', direct=_c19_mm_order, doc='min-max scaling with hi > lo is strictly order-preserving')
+    L('prop.C19.mm.inverse', direct=_c19_mm_inverse, doc='undo(do(x)) = x for min-max scaling')
+    L('prop.C19.mm.minrange', direct=_c19_mm_with_minrange, doc='with the interval derived from min_range the image is inside [0, 1]')
